@@ -132,7 +132,8 @@ class TimestampConvertor(DataConvertor):
     def from_interval(self, interval: Interval, rng: Random) -> MicrodataValue:
         value = _generate_float(interval, rng)
         value = _inverse_normalize_value(value, self.scaler)
-        datetime = TIMESTAMP_REFERENCE + np.timedelta64(int(value), "s")
+        # Round to the nearest second: the inverse scaling may return e.g. 6.99999999e9 for 7e9.
+        datetime = TIMESTAMP_REFERENCE + np.timedelta64(round(value), "s")
         return (datetime, value)
 
 
